@@ -151,6 +151,12 @@ public:
 	static void IncrementTime(double);
 #endif /* I2_DEBUG */
 
+#ifdef ICINGA2_VERIF
+	/* Verification hook H1: harness-controlled clock (negative value = unset, use the real clock). */
+	static void VerifSetTime(double);
+	static double VerifGetTime();
+#endif /* ICINGA2_VERIF */
+
 	/**
 	 * TruncateUsingHash truncates a given string to an allowed maximum length while avoiding collisions in the output
 	 * using a hash function (SHA1).
